@@ -2,6 +2,8 @@ import Rtsp.Proofs.Hdr.Transport
 import Rtsp.Proofs.Hdr.RtpInfo
 import Rtsp.Proofs.Hdr.Range
 import Rtsp.Proofs.Hdr.KeyMgmt
+import Rtsp.Proofs.Hdr.RangeNptNear
+import Rtsp.Proofs.Hdr.MapOrder
 /-
 C09 — RTSP header codecs round-trip and parse deterministically.
 
@@ -66,6 +68,28 @@ theorem parse_perm_invariant (π : List (Str × Str) → List (Str × Str)) (hπ
 example : (List.reverse (α := Str × Str) [(cs!"a", cs!"1"), (cs!"b", cs!"2")]).Perm [(cs!"a", cs!"1"), (cs!"b", cs!"2")] :=
   List.reverse_perm _
 
+/-- What the repaired defect was (`known-findings.txt`, key hdr-nondeterministic-parse): when the
+codecs range over the map itself – modelled by handing them an arrangement `π` of the map's
+entries – two arrangements of the SAME map give different Transport values, and different failure
+classes. -/
+theorem map_iteration_was_order_dependent :
+    Hdr.Transport.unmarshalWith (keyValParseMapOrder id) [cs!"RTP/AVP;RTP/AVP/TCP"] ≠
+      Hdr.Transport.unmarshalWith (keyValParseMapOrder List.reverse) [cs!"RTP/AVP;RTP/AVP/TCP"] ∧
+    Hdr.Transport.unmarshalWith (keyValParseMapOrder id) [cs!"RTP/AVP;mode=x;port=y"] = .err .mode ∧
+    Hdr.Transport.unmarshalWith (keyValParseMapOrder List.reverse) [cs!"RTP/AVP;mode=x;port=y"] = .err .ports :=
+  ⟨map_iteration_order_dependent_value, map_iteration_order_dependent_error.1, map_iteration_order_dependent_error.2⟩
+
+/-- The repair changed nothing where the old parser was deterministic: the repaired parser is the
+old one read in insertion order, so if the old parser (ranging over the map, in any arrangement
+`π`) always answered `r` for a header value, the repaired parser answers `r` too.  Stated for
+Transport; the same one-line argument applies to every header (`keyValParse_eq_mapOrder_id`). -/
+theorem fix_preserves_order_independent_inputs (v : List Str) (r : Res Transport)
+    (hold : ∀ π : List (Str × Str) → List (Str × Str), (∀ m, (π m).Perm m) → Hdr.Transport.unmarshalWith (keyValParseMapOrder π) v = r) :
+    Hdr.Transport.unmarshal v = r := by
+  have := hold id (fun m => List.Perm.refl m)
+  rw [← keyValParse_eq_mapOrder_id] at this
+  exact this
+
 /-- **parse_deterministic**: `Unmarshal` is a function of the header value alone (stated for the
 record: equal inputs, equal outputs – value or failure class). -/
 theorem parse_deterministic (v w : List Str) (h : v = w) :
@@ -95,6 +119,20 @@ theorem Range.unmarshal_marshal (h : Range) (wf : h.WellFormed) :
 /-- the three kinds of time inside a Range, individually -/
 theorem Range.npt_time_roundtrip (d : Int) (h0 : 0 ≤ d) (h1 : d < 1000000000000000) :
     nptTime (nptMarshalTime d) = .ok d := nptTime_marshal h0 h1
+
+/-- Go prints NPT seconds through float64, so the printed text may be a 17-digit neighbour of the
+exact decimal (1.118 s prints as `1.1179999999999999`).  Every plain decimal `q.f` with more than
+nine fraction digits that lies within a quarter of a nanosecond of `d` ns parses to `d`
+(`V f` is the number the digit string `f` spells; the hypotheses are `|x·10^9 − d| < 1/4` scaled
+by `4·10^(|f|−9)`).  The Go oracle checks the quarter-nanosecond bound on every generated value. -/
+theorem Range.npt_parse_near (q d : Nat) (f : Str) (hq : q < 1000000) (hf : ∀ c ∈ f, c.isDigit = true) (hlen : 9 < f.length)
+    (hlo : 4 * (d * 10 ^ (f.length - 9)) < 4 * (q * 1000000000 * 10 ^ (f.length - 9) + V f) + 10 ^ (f.length - 9))
+    (hhi : 4 * (q * 1000000000 * 10 ^ (f.length - 9) + V f) < 4 * (d * 10 ^ (f.length - 9)) + 10 ^ (f.length - 9)) :
+    parseFloatNs (dec q ++ '.' :: f) = .ok d := parseFloatNs_near q d f hq hf hlen hlo hhi
+
+/-- the text Go prints for 1.118 s -/
+example : parseFloatNs cs!"1.1179999999999999" = .ok 1118000000 :=
+  Range.npt_parse_near 1 1118000000 cs!"1179999999999999" (by decide) (by decide) (by decide) (by decide) (by decide)
 
 theorem Range.smpte_time_roundtrip (t : SmpteTime) (wf : t.WF) : SmpteTime.unmarshal t.marshal = .ok t :=
   SmpteTime.unmarshal_marshal t wf
